@@ -200,10 +200,11 @@ def from_isodatetime(date_time: str | None):
                 kwargs[key] = parse_timezone(value)
             elif key == 'second':
                 if '.' in value:
-                    secs = float(value)
-                    kwargs[key] = int(secs)
-                    secs -= int(secs)
-                    kwargs['microsecond'] = int(1000000.0 * secs)
+                    # use the decimal digits directly: scaling a binary float
+                    # and truncating loses a microsecond for many values
+                    whole, frac = value.split('.', 1)
+                    kwargs[key] = int(whole or '0', 10)
+                    kwargs['microsecond'] = int(frac[:6].ljust(6, '0'), 10)
                 else:
                     kwargs[key] = int(value, 10)
             else:
